@@ -60,6 +60,8 @@ def _compile_steps(vfs_dump: dict, steps: list[dict]) -> list[dict]:
             for p, t in st.get("symlink", {}).items():
                 vfs.symlink(p, t)
             continue
+        if st.get("cwd"):
+            vfs.cwd = st["cwd"]  # the caller changed its working directory before this compile
         slot = st.get("slot")
         lookup = st.get("lookup") or []
         if slot is None or slot not in compilers:
@@ -545,9 +547,16 @@ def c08_run(item: dict) -> dict:
                     imps.append(text)
             w.vfs.write(alt, macrolib.render_file(lib, w.files[first]["macros"], imps, w.variant_of, True))
             steps.insert(0, {"op": "compile", "main": alt, "lookup": w.lookup, "slot": 0})
+            if erng.random() < 0.5 and w.vfs._resolve(w.main)[0] == w.main:
+                # a batch build that changes into each script's directory and names the script by its base name
+                steps[0].update({"main": pp.basename(alt), "cwd": pp.dirname(alt), "slot": erng.choice([0, 5])})
+                for st_ in steps[1:]:
+                    if st_["op"] == "compile":
+                        st_.update({"main": pp.basename(w.main), "cwd": pp.dirname(w.main)})
+                res["kinds"]["relative-names-after-chdir"] = res["kinds"].get("relative-names-after-chdir", 0) + 1
         outs = compile_steps(w.vfs.dump(), steps)
         res["configs"] += len(outs)
-        if steps[0]["main"] != w.main:
+        if len([s_ for s_ in steps if s_["op"] == "compile"]) > (2 if edited is not None else 1):
             outs = outs[1:]
             res["kinds"]["after-other-script-on-same-compiler"] = res["kinds"].get("after-other-script-on-same-compiler", 0) + 1
         o = outs[0]
@@ -610,97 +619,15 @@ INVALID_BODIES = {
     "jump_to_label_of_a_routine_from_macro_scope": "@in_body; a(); ~jumper();",
     "unknown_macro": "~no_such_macro();",
     "too_few_macro_arguments": "~two_args(1);",
+    "too_few_macro_arguments_for_an_unused_parameter": "~second_unused(1);",
+    "no_macro_argument_for_an_unused_parameter": "~only_unused();",
     "syntax_error": "a(;",
 }
-TWO_ARGS = "macro two_args($a, $b) {\n    x($a, $b);\n}\n"
+TWO_ARGS = ("macro two_args($a, $b) {\n    x($a, $b);\n}\nmacro second_unused($a, $b) {\n    x($a);\n}\n"
+            "macro only_unused($a) {\n    x(30);\n}\n")
 # helper macros of the label-scope entries: `owner` defines a label, `jumper` jumps to a label that only its caller defines
 LABEL_MACROS = "macro owner() {\n    @owned;\n    o();\n}\n"
 JUMPER_MACRO = "macro jumper() {\n    jump @in_body;\n}\n"
-
-# closed, valid constructs that may precede an offending statement (in the same routine or in an earlier one): what was
-# opened and closed before must not make a stray control statement, label reference or macro call acceptable
-PREFIXES = {
-    "nothing": "",
-    "forever": "forever { p1(); if ($P == 1) { break_loop; } }",
-    "while": "while ($P == 1) { p1(); continue; }",
-    "while_not": "while not ($P == 1) { p1(); }",
-    "while_not_break": "while not ($P < 2) { p1(); if (debug) { break_loop; } }",
-    "for": "for (p0(); $P < 3; p2();) { p1(); }",
-    "nested_loops": "forever { while not ($Q == 1) { p1(); } break_loop; }",
-    "switch_break": "switch ($P) { case 1: p1(); break; default: p2(); break; }",
-    "switch_fall": "switch (random(3)) { case 1: case 2: p1(); default: p2(); }",
-    "message_switch": "message_SwitchTalk ($P) { case 1: 'a' default: 'b' }",
-    "if_else": "if ($P == 1) { p1(); } elseif not ($P[2]) { p2(); } else { p3(); }",
-    "with": "with (actor 2) { p1(); }",
-    "label_jump": "@known; p1(); if ($P == 1) { jump @known; }",
-    "macro_call": "~fine(1);",
-    "macro_with_loop": "~loops();",
-    # statements that end control flow: what follows them is unreachable, not unchecked
-    "end": "p1(); end;",
-    "return": "p1(); return;",
-    "hold": "hold;",
-    "jump_back": "@again; p1(); jump @again;",
-    "switch_fall_then_op": "switch ($P) { case 1: case 2: p1(); break; default: p2(); } p3();",
-}
-PREFIX_MACROS = "macro fine($a) {\n    f($a);\n}\nmacro loops() {\n    while not ($M == 1) {\n        l();\n    }\n    forever {\n        break_loop;\n    }\n    switch ($M) {\n        case 1:\n            l();\n            break;\n    }\n}\n"
-
-VALID_BODIES = {
-    "break_outside_case": "break;",
-    "break_in_loop_not_case": "forever { break; }",
-    "continue_outside_loop": "continue;",
-    "break_loop_outside_loop": "break_loop;",
-    "continue_in_case_outside_loop": "switch ($A) { case 1: continue; }",
-    "jump_undefined_label": "jump @nowhere;",
-    "call_undefined_label": "call @nowhere;",
-    "switch_ends_in_empty_case": "switch ($A) { case 1: a(); case 2: }",
-    "switch_ends_in_empty_default": "switch ($A) { case 1: a(); default: }",
-    "two_defaults": "switch ($A) { default: a(); default: b(); }",
-    "statement_in_message_switch": "message_SwitchTalk ($A) { case 1: a(); }",
-    "label_in_with_block": "with (actor 1) { @l; }",
-    "not_on_bit_of_ordinary_variable": "if (not $A[1]) { a(); }",
-    "not_on_bit_under_a_negated_if": "if not (not $A[1]) { a(); }",
-    "not_on_bit_in_elseif": "if ($B == 1) { a(); } elseif (not $A[1]) { b(); }",
-    "not_on_bit_under_a_negated_elseif": "if ($B == 1) { a(); } elseif not (not $A[1]) { b(); }",
-    "not_on_bit_in_while": "while (not $A[1]) { a(); }",
-    "not_on_bit_under_while_not": "while not (not $A[1]) { a(); }",
-    "not_on_bit_among_alternatives": "if ($B == 1 || not $A[1]) { a(); }",
-    "not_on_bit_in_for": "for (i(); not $A[1]; n();) { a(); }",
-    "jump_to_label_of_another_macro": "jump @owned;",
-    "jump_to_label_of_a_called_macro": "~owner(); jump @owned;",
-    "call_to_label_of_another_macro": "call @owned;",
-    "jump_to_label_of_a_routine_from_macro_scope": "@in_body; a(); ~jumper();",
-    "unknown_macro": "~no_such_macro();",
-    "too_few_macro_arguments": "~two_args(1);",
-    "syntax_error": "a(;",
-}
-TWO_ARGS = "macro two_args($a, $b) {\n    x($a, $b);\n}\n"
-
-# closed, valid constructs that may precede an offending statement (in the same routine or in an earlier one): what was
-# opened and closed before must not make a stray control statement, label reference or macro call acceptable
-PREFIXES = {
-    "nothing": "",
-    "forever": "forever { p1(); if ($P == 1) { break_loop; } }",
-    "while": "while ($P == 1) { p1(); continue; }",
-    "while_not": "while not ($P == 1) { p1(); }",
-    "while_not_break": "while not ($P < 2) { p1(); if (debug) { break_loop; } }",
-    "for": "for (p0(); $P < 3; p2();) { p1(); }",
-    "nested_loops": "forever { while not ($Q == 1) { p1(); } break_loop; }",
-    "switch_break": "switch ($P) { case 1: p1(); break; default: p2(); break; }",
-    "switch_fall": "switch (random(3)) { case 1: case 2: p1(); default: p2(); }",
-    "message_switch": "message_SwitchTalk ($P) { case 1: 'a' default: 'b' }",
-    "if_else": "if ($P == 1) { p1(); } elseif not ($P[2]) { p2(); } else { p3(); }",
-    "with": "with (actor 2) { p1(); }",
-    "label_jump": "@known; p1(); if ($P == 1) { jump @known; }",
-    "macro_call": "~fine(1);",
-    "macro_with_loop": "~loops();",
-    # statements that end control flow: what follows them is unreachable, not unchecked
-    "end": "p1(); end;",
-    "return": "p1(); return;",
-    "hold": "hold;",
-    "jump_back": "@again; p1(); jump @again;",
-    "switch_fall_then_op": "switch ($P) { case 1: case 2: p1(); break; default: p2(); } p3();",
-}
-PREFIX_MACROS = "macro fine($a) {\n    f($a);\n}\nmacro loops() {\n    while not ($M == 1) {\n        l();\n    }\n    forever {\n        break_loop;\n    }\n    switch ($M) {\n        case 1:\n            l();\n            break;\n    }\n}\n"
 
 # closed, valid constructs that may precede an offending statement (in the same routine or in an earlier one): what was
 # opened and closed before must not make a stray control statement, label reference or macro call acceptable
@@ -808,7 +735,7 @@ def c10_worlds(rng: random.Random) -> list[dict]:
         W(f"coroutine_in_imported_file_depth_{depth}", files3)
     # every offending statement, at every place it can sit
     for nm, body in INVALID_BODIES.items():
-        extra = TWO_ARGS if nm == "too_few_macro_arguments" else (JUMPER_MACRO if nm == "jump_to_label_of_a_routine_from_macro_scope" else LABEL_MACROS if "_to_label_of_" in nm else "")
+        extra = TWO_ARGS if "macro_argument" in nm else (JUMPER_MACRO if nm == "jump_to_label_of_a_routine_from_macro_scope" else LABEL_MACROS if "_to_label_of_" in nm else "")
         W(f"{nm}@main_routine", {M: extra + _wrap(body, "routine")})
         W(f"{nm}@routine_for_named_actor", {M: extra + _wrap(body, "routine").replace("def 0 {", "def 0 for actor ACTOR_NPC {")})
         W(f"{nm}@routine_for_object_id", {M: extra + "def 0 {\n    first();\n    end;\n}\n" + _wrap(body, "routine").replace("def 0 {", "def 1 for object (3) {")})
@@ -829,7 +756,7 @@ def c10_worlds(rng: random.Random) -> list[dict]:
     for nm, body in INVALID_BODIES.items():
         if nm == "syntax_error":
             continue
-        extra = (TWO_ARGS if nm == "too_few_macro_arguments" else (JUMPER_MACRO if nm == "jump_to_label_of_a_routine_from_macro_scope" else LABEL_MACROS if "_to_label_of_" in nm else "")) + PREFIX_MACROS
+        extra = (TWO_ARGS if "macro_argument" in nm else (JUMPER_MACRO if nm == "jump_to_label_of_a_routine_from_macro_scope" else LABEL_MACROS if "_to_label_of_" in nm else "")) + PREFIX_MACROS
         for pn, prefix in PREFIXES.items():
             if pn == "nothing":
                 continue
@@ -880,7 +807,7 @@ def c10_worlds(rng: random.Random) -> list[dict]:
     for nm, body in INVALID_BODIES.items():
         if nm in ("syntax_error",):
             continue
-        extra = TWO_ARGS if nm == "too_few_macro_arguments" else (JUMPER_MACRO if nm == "jump_to_label_of_a_routine_from_macro_scope" else LABEL_MACROS if "_to_label_of_" in nm else "")
+        extra = TWO_ARGS if "macro_argument" in nm else (JUMPER_MACRO if nm == "jump_to_label_of_a_routine_from_macro_scope" else LABEL_MACROS if "_to_label_of_" in nm else "")
         W(f"{nm}@routine_whose_id_is_defined_again", {M: extra + _wrap(body, "routine") + "def 0 {\n    second();\n    end;\n}\n"})
     W("empty_import_path", {M: 'import "";\n' + VALID_MAIN})
     W("empty_import_path_with_lookup_paths", {M: "import '';\n" + VALID_MAIN}, lookup=["/proj/macros"], expect="reject-or-oserror")
